@@ -6,6 +6,7 @@ def dispatch (op : String) (args : List Sx) : String :=
   | "strip" => opStrip args
   | "enc" => opEnc args
   | "dec" => opDec args
+  | "spec" => opSpec args
   | "decwl" => opDecWl args
   | "rt" => opRt args
   | "probe" => opProbe args
